@@ -38,6 +38,7 @@ VIS_DIRECTIVE = {"h": ".hidden", "p": ".protected", "i": ".internal"}
 KNOWN_INTERNAL = "internal-visibility-treated-as-default"
 KNOWN_PROT = "merged-protected-visibility-not-written"
 KNOWN_HREF = "hidden-reference-not-applied-to-later-winner"
+KNOWN_RUSTVS = "exact-global-plus-local-star-script-reexports-hidden"
 KNOWN_EXCL = "exclude-libs-exported-via-other-route"
 
 
@@ -211,6 +212,9 @@ def normalise(case):
             w = winner(s)
             if w is not None and merged_visibility(s) == "p" and w["vis"] == "d":
                 w["vis"] = "p"
+        for s in syms:
+            if in_rustvs_domain(case, syms, s):
+                winner(s)["vis"] = "h"
     return syms
 
 
@@ -225,6 +229,24 @@ def in_href_domain(s):
         return False
     first = min(nl, key=lambda d: d["tu"])
     return winner(s) is not first
+
+
+def rust_like(case):
+    """wild's fast path for version scripts of the form `{ global: <exact names>; local: *; }`."""
+    vs = case["ctl"]["vs"]
+    return bool(vs) and any(p[0] == "star" for p in vs["local"]) and all(p[0] == "exact" for p in vs["global"])
+
+
+def in_rustvs_domain(case, syms, s):
+    """Known finding: with a `{ global: names; local: *; }` script, a listed symbol whose most
+    constraining visibility is hidden only through another entry (a losing definition or an
+    undefined reference; the winning definition itself is default/protected) is exported: the fast
+    path first makes everything local and then clears that mark for the listed names, which also
+    clears the mark that the hidden visibility had set."""
+    if not rust_like(case) or winner(s) is None:
+        return False
+    listed = resolve_pats(case["ctl"]["vs"]["global"], syms)
+    return s.name in listed and merged_visibility(s) in ("h", "i") and winner(s)["vis"] in ("d", "p")
 
 
 def effective_exclude(case, syms):
@@ -562,7 +584,9 @@ def symtab_problems(elf, syms, case):
             else:
                 h = hits[0]
                 b, v = BIND.get(h.bind), VISN[h.vis]
-                if in_href_domain(sym) and b != "l" and v != "h":
+                if in_rustvs_domain(case, syms, sym) and b != "l" and v != "h":
+                    bad["rustvs"] = f"{sym.name}: hidden through another entry and listed in a global:/local:* script, entry is bind={b} vis={v}"
+                elif in_href_domain(sym) and b != "l" and v != "h":
                     bad["hidden-ref"] = f"{sym.name}: a reference is hidden, entry is bind={b} vis={v}"
                 elif vis == "i" and b != "l":
                     bad["internal"] = f"{sym.name}: most constraining visibility is internal, entry is bind={b} vis={v}"
@@ -658,6 +682,8 @@ class C31(Check):
             return KNOWN_EXCL
         if any(in_href_domain(s) for s in syms):
             return KNOWN_HREF
+        if any(in_rustvs_domain(case, syms, s) for s in syms):
+            return KNOWN_RUSTVS
         return None
 
     @staticmethod
@@ -708,7 +734,7 @@ class C31(Check):
             if any(r.split(":")[0] == base for r in pl):
                 classes.append("symtab-rule-flags-ld:" + base)
                 continue
-            sig = {"merged-protected": KNOWN_PROT, "internal": KNOWN_INTERNAL, "hidden-ref": KNOWN_HREF}.get(rule, "symtab:" + rule)
+            sig = {"merged-protected": KNOWN_PROT, "internal": KNOWN_INTERNAL, "hidden-ref": KNOWN_HREF, "rustvs": KNOWN_RUSTVS}.get(rule, "symtab:" + rule)
             raise Violation(sig, pw[rule], {"args": args})
         if has_w and not has_l:
             classes.append("symtab-only-wild")
@@ -732,6 +758,8 @@ class C31(Check):
                 sig = KNOWN_INTERNAL
             elif extra and in_href_domain(sym):
                 sig = KNOWN_HREF
+            elif extra and in_rustvs_domain(case, syms, sym):
+                sig = KNOWN_RUSTVS
             elif extra and why.get(n) == "exclude-libs" and excl_route(case, syms, sym):
                 sig = KNOWN_EXCL
             else:
